@@ -142,7 +142,8 @@ class RemoteDBusObject :
         Called by the L{DBusObjectHandler} when the connection is lost
         """
         if self._disconnectCBs:
-            for cb in self._disconnectCBs:
+            # a copy: a callback may cancel itself while the loss is dispatched
+            for cb in list(self._disconnectCBs):
                 cb(self, reason)
 
     def notifyOnSignal(self, signalName, callback, interface=None):
